@@ -95,7 +95,18 @@ CharacterizeFails(e) ==
                    /\ \E i \in accepting : e.cands[i].name = e.res.cls)
           ELSE Chk("C05:CharacterizeFailsIffNoCandidate", e.res.exc = "RuntimeError" /\ accepting = {})
 
+\* growth: records declared linear (conformance remarks only; target extraction is not defined for them)
+LinearTypingFails(e) ==
+  LET c == e.cls  w == e.seq  r == e.res
+      t == TypingT(c.toks, c.enz, c.role, w, FALSE)
+  IN IF r.exc # "" \/ ~IsNucWord(w) THEN {}
+     ELSE Chk("X:LinearTypingVerdict", r.valid = t.ok)
+          \cup (IF r.valid /\ t.ok /\ Len(r.qexc) >= 2 /\ r.qexc[1] = "" /\ r.qexc[2] = ""
+                THEN Chk("X:LinearTypingOverhangs", r.up = t.up /\ r.down = t.down) ELSE {})
+          \cup (IF r.valid /\ Len(r.qexc) >= 3 /\ r.qexc[3] # "" THEN {"X:LinearTargetRaises"} ELSE {})
+
 Fails(e) == CASE e.ev = "Typing" -> TypingFails(e)
+              [] e.ev = "LinearTyping" -> LinearTypingFails(e)
               [] e.ev = "Characterize" -> CharacterizeFails(e)
               [] OTHER -> {"X:UnknownEvent"}
 
